@@ -6,7 +6,7 @@ from fractions import Fraction
 
 from ..core import AnalysisError
 from ..poly import P
-from ..symex import Ev, find_atoms, call_name, seq_items, transpose
+from ..symex import obj_init, Ev, find_atoms, call_name, seq_items, transpose
 from ..tables import sgmodel as M
 from .generic import string_value
 
@@ -110,6 +110,8 @@ def run(chk):
                  ("R11.6", r11_6), ("R11.7", r11_7), ("R11.8", r11_8)):
         if chk.want(r):
             f(chk, so)
+    if chk.want("R11.7"):
+        string_reader_call_sites(chk)
     chk.assume("rotation entries are in {-1,0,1} (documented precondition of the packed form)")
     chk.assume("IEEE-754: x % 1 lies in the closed interval [0, 1] (it returns exactly 1.0 for x = -1e-17)")
     chk.assume("the set of accepted string spellings and the enumeration of all 34,012,224 codes are executions and are not decided")
@@ -397,6 +399,36 @@ def r11_4(chk, so):
     chk.need(sites >= 2, "identity-code literals outside symmetry_operation.py not found")
 
 
+def string_reader_call_sites(chk):
+    """The string reader accepts spaces inside an operation ('-X, 0.5+Y, 0.5-Z'): a caller that hands it one whitespace-delimited token of a
+    line (line.split()[k]) has cut the operation at its first blank.  Every call site of from_string_code in the package is read."""
+    n = 0
+    for rel in chk.repo.all_py():
+        try:
+            mod = chk.repo.module(rel)
+        except Exception:      # noqa: BLE001
+            continue
+        for qual, fn in mod.funcs.items():
+            for node in ast.walk(fn):
+                if not (isinstance(node, ast.Call) and isinstance(node.func, ast.Attribute) and node.func.attr == "from_string_code" and node.args):
+                    continue
+                arg = node.args[0]
+                cut = None
+                for sub in ast.walk(arg):
+                    if isinstance(sub, ast.Subscript) and isinstance(sub.value, ast.Call) and isinstance(sub.value.func, ast.Attribute) \
+                            and sub.value.func.attr in ("split", "rsplit") and not isinstance(sub.slice, ast.Slice):
+                        sp = sub.value
+                        maxsplit = (len(sp.args) >= 2) or any(k.arg == "maxsplit" for k in sp.keywords)
+                        on_blank = not sp.args or (isinstance(sp.args[0], ast.Constant) and (sp.args[0].value is None or str(sp.args[0].value).isspace()))
+                        if on_blank and not maxsplit:
+                            cut = ast.unparse(sub)
+                n += 1
+                chk.ob("R11.7", rel, qual, "the string reader is handed the whole operation text (blanks inside an operation are part of the accepted "
+                       "spellings), not one whitespace-delimited token of a line", cut is None, node=node, fingerprint=f"reader-call:{qual}",
+                       expected="the rest of the line after the keyword (line[4:], line.split(None, 1)[1])", found=cut)
+    chk.need(n >= 2, f"expected >= 2 call sites of from_string_code in the package, found {n}")
+
+
 def r11_5(chk, so):
     ev = so.ev("SymmetryOperation.from_integer_code")
     chk.saw(SO, "SymmetryOperation.from_integer_code")
@@ -413,6 +445,21 @@ def r11_5(chk, so):
         if e.kind == "call" and call_name(e.value.as_atom() or ()) == "decode_symm_int" and e.extra["args"][0].key() == code.key():
             built = True
     chk.ob("R11.5", SO, "SymmetryOperation.from_integer_code", "the operation is decoded from the given code", built)
+    # ... and that decoded operation is what every exit hands out: an object constructed from the rotation and translation decode_symm_int(code) gives
+    dec = f"decode_symm_int({code})"
+    okret, badret = bool(ev.returns), None
+    for r in ev.returns:
+        v = obj_init(r.value) if r.value is not None else None
+        a = v.as_atom() if v is not None else None
+        good = bool(a and a[0] == "call" and (call_name(a) or "").split(".")[-1] in ("SymmetryOperation", ev.param_names[0]) and len(a[2]) == 2
+                    and a[2][0].key() == f"{dec}[0]" and a[2][1].key() == f"{dec}[1]") or \
+            bool(a and a[0] == "call" and (call_name(a) or "").split(".")[-1] in ("SymmetryOperation", ev.param_names[0]) and len(a[2]) == 1
+                 and a[2][0].as_atom() and a[2][0].as_atom()[0] == "starred" and a[2][0].as_atom()[1].key() == dec)
+        if not good:
+            okret, badret = False, badret or r
+    chk.ob("R11.5", SO, "SymmetryOperation.from_integer_code", "every exit returns the operation constructed from the decoded rotation and translation",
+           okret, node=badret.node if badret is not None else None, fingerprint="decoded-returned",
+           expected=f"SymmetryOperation({dec}[0], {dec}[1])", found=str(badret.value)[:120] if badret is not None else None)
     seeds = [e for e in ev.events if (e.kind == "call" and call_name(e.value.as_atom() or ()) == "setattr" and len(e.extra["args"]) == 3
                                       and string_value(e.extra["args"][1]) == "_integer_code") or
              (e.kind == "store" and e.target.key().endswith("._integer_code"))]
@@ -687,6 +734,13 @@ def r11_7(chk, so):
     wrap = any(e.kind == "assign" and e.name == "translation" and obj_init(e.value).as_atom()
                and obj_init(e.value).as_atom()[0] == "bin" and obj_init(e.value).as_atom()[1] == "Mod"
                and obj_init(e.value).as_atom()[3] == P.const(1) for e in dv.events)
+    if not wrap:
+        # reduced on the way out: return rotation, translation % 1 (every exit)
+        def modded(r):
+            it_ = seq_items(r.value) if r.value is not None else None
+            a_ = obj_init(it_[1]).as_atom() if it_ and len(it_) == 2 else None
+            return bool(a_ and a_[0] == "bin" and a_[1] == "Mod" and a_[3] == P.const(1))
+        wrap = bool(dv.returns) and all(modded(r) for r in dv.returns)
     chk.ob("R11.7", SO, "decode_symm_str", "the decoded translation is reduced modulo 1", wrap)
     # encoder emits [sign]axis tokens and a fraction first
     ev = so.ev("encode_symm_str")
